@@ -180,6 +180,15 @@ def gen_case(rng, tier, kind=None):
     elif r < 0.16 and kind in ("kmeans", "gmm_ml", "gmm_map"):
         case["xform"] = "float32"
         case["K"] = min(case.get("K", 1), 3)
+    if kind in ("gmm_ml", "gmm_map") and not case.get("fchunks") and rng.random() < 0.12:
+        # a lazily row-filtered array: Dask does not know its chunk sizes (nan). GMM training
+        # accepts such arrays (k-means, WCCN, whitening and the ISV/JFA array path refuse them
+        # with dask's own "unknown chunk sizes" error and are therefore not given any)
+        n_rows = len(case["X"])
+        mask = [True] * n_rows + [False] * rng.randint(1, n_rows)
+        rng.shuffle(mask)
+        case["nan_mask"] = mask
+        case["nan_chunks"] = random_composition(rng, len(mask), rng.randint(1, min(len(mask), 8)))
     if "y" in case and rng.random() < 0.2:
         case["ydtype"] = rng.choice(["int32", "int16", "uint8", "tuple"])
     if kind in ("kmeans", "gmm_ml", "gmm_map") and case.get("thr") not in (None, 0.0) \
@@ -206,6 +215,8 @@ def fixed_cases(tier):
             X = sig6(X[:n] + np.arange(n)[:, None] * 0.01 * (np.abs(X).max() + 1.0))
             base["X"] = L(X)
             base.pop("fchunks", None)
+            base.pop("nan_mask", None)
+            base.pop("nan_chunks", None)
             base["K"] = min(base["K"], 4) or 1
             if kind == "kmeans":
                 base["cfg"]["k"] = min(base["cfg"]["k"], 2)
@@ -221,6 +232,20 @@ def fixed_cases(tier):
                     cs["sched"] = {"mode": mode, "policy": "random", "workers": 2,
                                    "stall_p": 0.5, "seed": rng.getrandbits(32)}
                     out.append(cs)
+    # fault-free sub-batch: one block, shared memory, fifo order. A violation here is not
+    # attributable to chunking, scheduling or isolation
+    for kind in KINDS:
+        for j in range(3):
+            r0 = random.Random(f"fixeddegenerate/{kind}/{j}")
+            cs = gen_case(r0, "quick", kind=kind)
+            cs["chunks"] = [len(cs["X"])]
+            cs.pop("fchunks", None)
+            cs.pop("nan_mask", None)
+            cs.pop("nan_chunks", None)
+            cs["xmodes"] = False
+            cs["fault_free"] = True
+            cs["sched"] = {"mode": "shared", "policy": "fifo", "workers": 1, "stall_p": 0.0, "seed": 0}
+            out.append(cs)
     # many blocks: counts around powers of two (reductions that work in groups change
     # behaviour exactly there), single-row and uneven layouts
     counts = [15, 17, 31, 33, 63, 65, 100, 127, 129, 257] if tier == "quick" else \
@@ -241,6 +266,8 @@ def fixed_cases(tier):
                 base["y"] = [i % nc for i in range(n)]
             base["chunks"] = random_composition(r2, n, nb)
             base.pop("fchunks", None)
+            base.pop("nan_mask", None)
+            base.pop("nan_chunks", None)
             base["K"] = min(base.get("K", 1), 2) if kind != "gmm_kminit" else 1
             if kind == "kmeans" and not isinstance(base["cfg"]["init"], list):
                 base["cfg"]["init"] = L(X[: base["cfg"]["k"]] * 1.01)
@@ -410,6 +437,13 @@ def _labels(case, dask, reverse=False):
 
 
 def _dask_X(case, X, reverse=False):
+    if case.get("nan_mask") and not reverse:
+        mask = np.array(case["nan_mask"])
+        big = np.full((len(mask), X.shape[1]), 1e6, dtype=X.dtype)
+        big[mask] = X
+        bd = da.from_array(big, chunks=(tuple(case["nan_chunks"]), (X.shape[1],)))
+        keep = da.from_array(mask, chunks=(tuple(case["nan_chunks"]),))
+        return bd[keep]
     chunks = tuple(case["chunks"][::-1] if reverse else case["chunks"])
     f = case.get("fchunks")
     return da.from_array(X, chunks=(chunks, tuple(f) if f else (X.shape[1],)))
@@ -451,7 +485,9 @@ def run_case(case, replay=None):
     rec.probe("single_row_block", 1 in case["chunks"] and nblocks > 1)
     rec.probe("uneven_blocks", nblocks > 1 and max(case["chunks"]) >= 5 * min(case["chunks"]))
     rec.probe("feature_chunked", bool(case.get("fchunks")))
+    rec.probe("unknown_chunk_sizes", bool(case.get("nan_mask")))
     rec.probe("mode_" + case["sched"]["mode"])
+    rec.probe("fault_free_configuration", bool(case.get("fault_free")))
 
     sched = case["sched"]
 
@@ -740,6 +776,8 @@ def shrink(case):
     # case side
     if case.get("fchunks"):
         yield {k: v for k, v in case.items() if k != "fchunks"}
+    if case.get("nan_mask"):
+        yield {k: v for k, v in case.items() if k not in ("nan_mask", "nan_chunks")}
     n = len(case["X"])
     ch = case["chunks"]
     if len(ch) > 2:
@@ -766,6 +804,8 @@ def shrink(case):
                 continue
             keep = [i for i in range(n) if i not in set(rows)]
             c2 = dict(case, X=[case["X"][i] for i in keep])
+            c2.pop("nan_mask", None)
+            c2.pop("nan_chunks", None)
             chunks = list(ch)
             for i in sorted(rows, reverse=True):
                 chunks = drop_row_chunks(chunks, i)
